@@ -65,7 +65,7 @@ macro_rules! dev_impl {
         impl<K> $crate::dev::B<K>
         where
             K: $crate::dev::Dev,
-            K::Type<usize>: open_hypergraphs::array::NaturalArray<K>,
+            K::Type<usize>: open_hypergraphs::array::NaturalArray<K> + PartialEq,
             K::Type<$crate::plain::L>: open_hypergraphs::array::Array<K, $crate::plain::L> + PartialEq + std::fmt::Debug,
             K::Type<u64>: open_hypergraphs::array::Array<K, u64> + PartialEq + std::fmt::Debug,
             K::Index: std::fmt::Debug,
